@@ -219,7 +219,7 @@ def wrap_scheduler(sim, scheduler, latency, hooks=None, hang_limit=12.0):
 
 
 def unwrap_scheduler(scheduler):
-    for name in SCHED_METHODS:
+    for name in SCHED_METHODS + ["trials_checkpoints_can_be_removed"]:
         if name in scheduler.__dict__:
             del scheduler.__dict__[name]
 
